@@ -63,6 +63,21 @@ def program(seed, max_threads=3):
     return HEAD + "fn main() { " + b + " println(\"done\"); }\n"
 
 
+def storm(seed, threads=3, iters=400):
+    """several threads request stop-the-world operations back to back (minor/full collections, natives in between):
+    requests, resumes, parks and unparks of different operations interleave as tightly as the OS allows"""
+    rng = random.Random(seed)
+    kinds = ["std::force_minor_collect();", "std::force_collect();", "natives(1i32);", "allocator(3i32);"]
+    bodies = []
+    for t in range(threads):
+        a, b = rng.choice(kinds[:2]), rng.choice(kinds)
+        bodies.append(f"let s{t} = std::thread::spawn(|| {{ let mut i = 0i32; let mut c = Foo(value = 0i32, next = None[Foo]); "
+                      f"while i < {iters}i32 {{ {a} {b} c = Foo(value = c.value + 1i32, next = None[Foo]); i = i + 1i32; }} "
+                      f"std::assert(c.value == {iters}i32); }});")
+    joins = " ".join(f"s{t}.join();" for t in range(threads))
+    return HEAD + "fn main() { " + " ".join(bodies) + " " + joins + ' println("done"); }\n'
+
+
 if __name__ == "__main__":
     import sys
     print(program(int(sys.argv[1])))
